@@ -1,4 +1,9 @@
 """C04 registry entry (see DESIGN.md section 3, C04)."""
+import os
+import shutil
+import subprocess
+
+from . import build as _B
 from ._util import q as _q
 
 ID = "C04"
@@ -16,7 +21,62 @@ _RATE_LIMITS = [
 ]
 
 
+# Thorough tier: a coverage build of the same monitor shows that the workload really reaches the ownership code the
+# property is anchored in. Lines are found by their text (not by number); gcda files go to a private directory
+# (GCOV_PREFIX) so that other monitors' coverage runs of the same library objects are not counted.
+_GCDA = os.path.join(_B.BUILD, "cov", "gcda_c04")
+_ANCHOR_LINES = [
+    # (counter name, text identifying the line, offset from the matching line)
+    ("gcov_hits_horzjoin_split_swap_branch", "OutPt* tmp = or1->pts;", 0),
+    ("gcov_hits_horzjoin_split_or2_inside_or1_branch", "else if (Path1InsidePath2(or2->pts, or1->pts))", 2),
+    ("gcov_hits_horzjoin_split_neither_inside_branch", "or2->owner = or1->owner;", 0),
+    ("gcov_hits_horzjoin_merge_setowner", "SetOwner(or2, or1);", 0),
+    ("gcov_hits_movesplits_moves_a_split", "toOr->splits->emplace_back(*orIter);", 0),
+    ("gcov_hits_checksplitowner_entered", "for (auto split : *splits)", 0),
+    ("gcov_hits_checksplitowner_dead_split_recursion", "CheckSplitOwner(outrec, split->splits)) return true; //#942", 0),
+    ("gcov_hits_checksplitowner_found_in_split", "outrec->owner = split; //found in split", 0),
+    ("gcov_hits_recursivecheckowners_moves_up", "outrec->owner = outrec->owner->owner;", 0),
+    ("gcov_hits_path1insidepath2_midpoint_fallback", "Point64 mp = GetBounds(GetCleanPath(op1)).MidPoint();", 0),
+]
+
+
+def _gcov(ctx):
+    exe = ctx["exes"].get(("cov", "mon_c04"))
+    if not exe or not any(w.job.get("cfg") == "cov" for w in ctx["workers"]):
+        return
+    d = os.path.dirname(exe)
+    gd = os.path.join(_GCDA, d.lstrip("/"))
+    try:
+        if not os.path.exists(os.path.join(gd, "clipper.engine.o.gcda")):
+            ctx["notes"].append("gcov: no clipper.engine.o.gcda under %s; anchored-line evidence missing" % gd)
+            return
+        shutil.copy(os.path.join(d, "clipper.engine.o.gcno"), gd)
+        subprocess.run(["gcov", "-o", os.path.join(gd, "clipper.engine.o.tmp"), os.path.join(_B.SRC, "clipper.engine.cpp")],
+                       cwd=ctx["tmp"], stdout=subprocess.DEVNULL, stderr=subprocess.DEVNULL)
+        rows = []
+        with open(os.path.join(ctx["tmp"], "clipper.engine.cpp.gcov"), errors="replace") as f:
+            for line in f:
+                parts = line.split(":", 2)
+                if len(parts) == 3:
+                    c = parts[0].strip().rstrip("*")
+                    rows.append((int(c) if c.isdigit() else 0, parts[2]))
+        for name, text, off in _ANCHOR_LINES:
+            hits = 0
+            for i, (_, src) in enumerate(rows):
+                if text in src and i + off < len(rows):
+                    hits = rows[i + off][0]
+                    break
+            ctx["counters"][name] = hits
+            if hits == 0:
+                ctx["notes"].append("gcov: the workload never executed the line '%s' (+%d)" % (text, off))
+    except Exception as e:  # evidence only; never take the verdict down
+        ctx["notes"].append("gcov post-processing failed: %r" % (e,))
+    finally:
+        shutil.rmtree(_GCDA, ignore_errors=True)
+
+
 def _post(ctx):
+    _gcov(ctx)
     rect = ctx["counters"].get("scenes_rect", 0)
     for claim, prefix, per_scene, floor in _RATE_LIMITS:
         n, example = 0, ""
@@ -60,13 +120,18 @@ PROP = {
              "inputs+configuration"),
     "assumptions": ["exact __int128 point location / shoelace in harness/mon_c04.cpp and harness/common/geom.h is correct",
                     "GP inputs outside general position (filter: 3.001+M*2^-50 separation) and rectilinear inputs off a lattice of pitch >= 2 are not explored"],
-    "floor": _q(6000, 150000),
+    "floor": _q(9000, 250000),
     "must_count": _q(["points_located", "midpoints_located", "area_comparisons", "treeD_compared_node_for_node",
                       "scenes_nontrivial_gp", "scenes_nontrivial_rect", "open_solution_paths"],
                      ["points_located", "midpoints_located", "area_comparisons", "treeD_compared_node_for_node",
-                      "scenes_nontrivial_gp", "scenes_nontrivial_rect", "open_solution_paths"]),
+                      "scenes_nontrivial_gp", "scenes_nontrivial_rect", "open_solution_paths",
+                      "gcov_hits_horzjoin_split_swap_branch", "gcov_hits_horzjoin_split_or2_inside_or1_branch",
+                      "gcov_hits_horzjoin_split_neither_inside_branch", "gcov_hits_movesplits_moves_a_split",
+                      "gcov_hits_checksplitowner_found_in_split"]),
     "jobs": [
-        {"mon": "mon_c04", "cfg": "plain", "cases": _q(40960, 1228800)},
+        {"mon": "mon_c04", "cfg": "plain", "cases": _q(61440, 1843200)},
+        {"mon": "mon_c04", "cfg": "cov", "cases": _q(0, 16384), "seed_off": 4000037, "shards": 2,
+         "env": {"GCOV_PREFIX": _GCDA}},
     ],
     "post": _post,
 }
